@@ -38,9 +38,29 @@ def gen_case(rng, i, tier):
         t = trees.random_tree(rng, n, rng.choice(["random", "caterpillar", "balanced"]))
         mode, dates = c06.gen_dates(rng, n)
         c.update(tree=t, n=n, dates=dates, date_mode=mode, B=None, ops=[])
+        # whole-number dates written as integers in the specification
+        c["int_dates"] = all(float(d).is_integer() for d in dates) and rng.random() < 0.6
         oldest = max(c06.leaf_heights(dates))
         if kind == "ratio":
             c["x"] = [[rng.uniform(0.05, 0.95) for _ in range(n - 2)] + [oldest + math.exp(rng.uniform(-2, 2))]]
+            if n > 2 and rng.random() < 0.3:
+                # a node collapsing onto the bound below it: a ratio at the edge of (0, 1] (the log-Jacobian term of
+                # such a node is ln(parent height - bound), finite and positive).  Only nodes whose two children are
+                # tips: below a collapsed node with internal children every quantity is a difference of nearly equal
+                # heights, ill-conditioned in floating point whatever the code does (measured on the unchanged code:
+                # relative 1e-7 on the reported value, 1e-5 on the round trip)
+                def cherries(u, acc):
+                    if isinstance(u, int):
+                        return
+                    if isinstance(u[1], int) and isinstance(u[2], int):
+                        acc.append(u[0])
+                    cherries(u[1], acc)
+                    cherries(u[2], acc)
+                acc = []
+                cherries(trees.index_tree(t), acc)
+                acc = [i for i in acc if i - n < n - 2]          # not the root
+                for i in rng.sample(acc, min(len(acc), rng.randint(1, 2))):
+                    c["x"][0][i - n] = rng.choice([1e-13, 1e-10, 1e-7])
         elif kind == "shift":
             c["x"] = [[math.exp(rng.uniform(-3, 1)) for _ in range(n - 1)]]
             if rng.random() < 0.35:
@@ -86,7 +106,7 @@ def interleaved(torch, tr, x, y, report):
         for o in others:
             tr(o)
         again = tr.log_abs_det_jacobian(x, y)
-        if again.shape != report.shape or not torch.allclose(again, report, rtol=1e-12, atol=1e-12):
+        if again.shape != report.shape or not torch.allclose(again, report, rtol=1e-12, atol=1e-12, equal_nan=True):
             return (f"log_abs_det_jacobian(x, y) = {report.reshape(-1).tolist()[:4]} right after y = t(x), but "
                     f"{again.reshape(-1).tolist()[:4]} once t has been applied to two other points in between")
         try:
@@ -94,7 +114,7 @@ def interleaved(torch, tr, x, y, report):
             i1 = tr.inv(y2)
             tr.inv(tr(others[0]))
             i2 = tr.inv(y2)
-            if i1.shape != i2.shape or not torch.allclose(i1, i2, rtol=1e-12, atol=1e-12):
+            if i1.shape != i2.shape or not torch.allclose(i1, i2, rtol=1e-12, atol=1e-12, equal_nan=True):
                 return "inv(y) changes once the inverse has been applied to another point in between"
         except NotImplementedError:
             pass
@@ -268,8 +288,9 @@ def property_on_impl(c, o):
     if c.get("smooth_k"):
         k = "shift-smooth"
     if o.get("inv") is not None and k != "logdiff":
+        tol = 1e-8
         for i, (a, b) in enumerate(zip(o["inv"], x)):
-            if not (abs(a - b) <= 1e-8 * max(1.0, abs(b))):
+            if tol is not None and not (abs(a - b) <= tol * max(1.0, abs(b))):
                 return "inverse", f"inv(forward(x))[{i}] = {a!r} but x[{i}] = {b!r}"
     if o.get("batched_bad"):
         return "batched", o["batched_bad"]
